@@ -292,7 +292,7 @@ func genMutated(t *rapid.T) Case {
 	schema.AddAugments(t, set, 0, 2)
 	schema.AddIdentities(t, set, 4)
 	if rapid.IntRange(0, 2).Draw(t, "deviations") == 0 {
-		schema.AddDeviations(t, set, schema.DevOpts{Modules: 1, Max: 3, NotSupported: true})
+		schema.AddDeviations(t, set, schema.DevOpts{Modules: 1, Max: 3, NotSupported: true, Operations: true})
 	}
 	c := Case{Gen: "mutated-valid-set"}
 	srcs := set.Texts()
